@@ -78,6 +78,12 @@ def contracts(repo):
     items.append(C07.router_request_spec())
     from . import C15
     items += C15.contracts(repo)          # an unroutable request is refused before any dispatch, with a non-zero status
+    from . import C05
+    from pyvc.spec import Custom
+    # a write of a type the tag cannot hold is refused: otherwise a stored value that does not fit the tag's type makes every later read of
+    # it fail outside the reply path (no reply frame for that request)
+    items.append(Custom('well_formed', C05.well_formed, replay=C05.replay_cell,
+                        note='allowed_tag_types read from the AST of Logix.request (shared with C05): every accepted (tag type, request type) pair stores values the tag type can produce'))
     return items
 
 
